@@ -131,11 +131,15 @@ def build_data(spec, F):
         for pair, v in t["pairs"].items():
             a, b = pair.split(">")
             tdc.ts[(a, b)] = make_ts(v, UNITS[t.get("units", "rate")])
+            if t.get("sigma") is not None:
+                tdc.ts[(a, b)].sigma = t["sigma"]
     for i, t in enumerate(spec.get("interactions", [])):
         tdc = D.interpops[i]
         for pair, v in t["pairs"].items():
             a, b = pair.split(">")
             tdc.ts[(a, b)] = make_ts(v, "N.A.")
+            if t.get("sigma") is not None:
+                tdc.ts[(a, b)].sigma = t["sigma"]
     return D
 
 
